@@ -354,6 +354,23 @@ def main(prop):
                 few = {sp["name"] for sp in r["spec"] if sp["aps"] < 2}
                 if set(mt) != set(impl_tags) or any(mt[c] != impl_tags[c] for c in mt if c not in few):
                     ck.disagreement("written chromosomes / tags differ from the model's", dict(replay, model=mt, impl=impl_tags))
+            if prop == "C07" and r.get("model_files") is not None:
+                # the files themselves against the model's (`orderFiles`): S lines in the same order with the same sequence and
+                # the same tags in the same order; L lines as a multiset (their order follows set iteration order)
+                few = {sp["name"] for sp in r["spec"] if sp["aps"] < 2 and not sp.get("single_node")}
+                mf = {x["name"]: x["file"] for x in r["model_files"]}
+                for x in impl:
+                    if not x["out"] or x["name"] in few or x["name"] not in mf:
+                        continue
+                    isegs = [[sg["id"], sg["seq"], [":".join(tg) for tg in sg["tags"]]] for sg in x["out"]["segs"]]
+                    ilinks = sorted([l["a"], l["da"], l["b"], l["db"], l["ov"], list(l["tags"])] for l in x["out"]["links"])
+                    msegs = mf[x["name"]]["segs"]
+                    mlinks = sorted(list(l) for l in mf[x["name"]]["links"])
+                    ck.count("model-file-compared")
+                    if isegs != msegs or ilinks != mlinks:
+                        ck.disagreement("the written file of %s differs from the model's (orderFiles)" % x["name"],
+                                        dict(replay, chromosome=x["name"], impl_segs=isegs[:8], model_segs=msegs[:8],
+                                             links_equal=ilinks == mlinks))
             if prop == "C06":
                 # the assignment depends only on the graph: other line order, other stale tags
                 g2 = text(rng, segs, links, stale=True)
